@@ -33,7 +33,7 @@ def listing():
     for l in out.splitlines():
         if l.startswith('LIST '):
             _, name, f, a, b = l.split()
-            if re.search(pat, name):
+            if re.search(pat, name) and os.path.exists(f):
                 res.append((name, f, int(a), int(b)))
     return sorted(res)
 
